@@ -54,3 +54,8 @@ uint8_t __vf_regex_match(uint32_t id, void *p_, uint64_t n) {
 }
 void __vf_regex_set(uint32_t id, uint32_t k, uint32_t v) { vf_tt[id][k] = v & 1; }   /* cube-given (concrete) entries */
 uint8_t __vf_regex_truth(uint32_t id, uint32_t k) { return id == 0 ? 1 : vf_tt[id][k]; }
+
+/* std::chrono::system_clock::now(): arbitrary non-decreasing instants (nanoseconds) */
+long nondet_long(void);
+int64_t vf_clock;
+uint64_t _ZNSt6chrono3_V212system_clock3nowEv(void) { long d = nondet_long(); __CPROVER_assume(d >= 0 && d < 1000000000000L); vf_clock += d; return (uint64_t) vf_clock; }
